@@ -10,6 +10,7 @@ boundary is recorded (``ctx.trace``).
 from __future__ import annotations
 
 import asyncio
+import os
 import copy
 from dataclasses import dataclass, field
 from typing import Any, Callable, Dict, List, Optional
@@ -191,10 +192,13 @@ class AsyncProxy(BaseProxy):
             return copy.deepcopy(res)
         raise NotImplementedError(func)
 
-    async def _callback(self, call):
+    async def _callback(self, call, ext=False):
         name, arg = call
         ctx = self.ctx
         ev = {"k": "CB", "s": self.sid, "f": name, "arg": _enc_cb(name, arg), "res": "ok"}
+        if ext:
+            ev["ext"] = True
+            ev["w"] = ctx.ticks()
         try:
             r = await getattr(self.remote, name)(arg)
             if name == "get_data":
@@ -341,9 +345,42 @@ def build_world(ctx: Ctx, loop, world_kw=None, connect_order=None):
 # executing
 
 
+class Hang(BaseException):
+    """The code under test computed for longer than the watchdog allows without returning to the event loop
+    (an execution normally takes milliseconds): a non-terminating loop in mosaik, reported as outcome "hang"."""
+
+
+EXEC_LIMIT = float(os.environ.get("VERIF_EXEC_LIMIT", "20"))  # seconds of wall-clock per execution (build + run)
+
+
+class _Watchdog:
+    def __enter__(self):
+        import signal
+        import threading
+
+        self.on = threading.current_thread() is threading.main_thread() and EXEC_LIMIT > 0
+        if self.on:
+            def fire(signum, frame):
+                raise Hang(f"no result within {EXEC_LIMIT:.0f} s")
+
+            self.old = signal.signal(signal.SIGALRM, fire)
+            signal.setitimer(signal.ITIMER_REAL, EXEC_LIMIT)
+        return self
+
+    def __exit__(self, *a):
+        import signal
+
+        if self.on:
+            signal.setitimer(signal.ITIMER_REAL, 0)
+            signal.signal(signal.SIGALRM, self.old)
+        return False
+
+
 def classify(exc: BaseException) -> dict:
     name = type(exc).__name__
     msg = str(exc)
+    if isinstance(exc, Hang):
+        return {"r": "hang", "msg": str(exc)}
     if isinstance(exc, Deadlock):
         return {"r": "deadlock", "msg": ""}
     if isinstance(exc, Livelock):
@@ -414,7 +451,8 @@ def execute(scn: dict, behaviour, policy, run_kw=None, world_kw=None, connect_or
     world = None
     try:
         try:
-            world, ents = build_world(ctx, loop, world_kw, connect_order)
+            with _Watchdog():
+                world, ents = build_world(ctx, loop, world_kw, connect_order)
             ctx.ents = ents
         except BaseException as e:  # noqa: BLE001
             ctx.outcome = dict(classify(e), phase="build")
@@ -448,16 +486,31 @@ def execute(scn: dict, behaviour, policy, run_kw=None, world_kw=None, connect_or
                 _sched.perf_counter = clock
                 restore.append(lambda: setattr(_sched, "perf_counter", saved))
                 ctx.rt_t0 = loop.time()
+                # external events: set_event(t) called from outside a step at a chosen wall-clock time (at = eighths of a step)
+                step_s = rt["rt_factor"] * rt.get("time_resolution", 1.0)
+                for x in rt.get("external", []):
+                    def fire(x=x):
+                        pr = ctx.proxies.get(x["sid"])
+                        if pr is not None and not loop.is_closed():
+                            loop.create_task(pr._callback(("set_event", x["t"]), ext=True), name=f"ext-{x['sid']}")
+
+                    loop.call_at(ctx.rt_t0 + x["at"] * step_s / 8.0, fire)
 
             def sink(message):
                 text = message.record["message"]
                 cat = "too_slow" if "too slow" in text else "event_after_end" if "is after simulation end" in text else "other"
-                ctx.record({"k": "LOG", "cat": cat, "w": ctx.ticks() if ctx.rt is not None else 0})
+                ev = {"k": "LOG", "cat": cat, "w": ctx.ticks() if ctx.rt is not None else 0}
+                if cat == "too_slow":
+                    # how far behind, in ticks of 1/1024 s (0 = only the strictly increasing clock reads), from the message's own arguments
+                    d = message.record["extra"].get("delta")
+                    ev["late"] = int(d * ctx.TICKS_PER_SECOND) if isinstance(d, (int, float)) else -1
+                ctx.record(ev)
 
             hid = logger.add(sink, level="WARNING", format="{message}")
             restore.append(lambda: logger.remove(hid))
         try:
-            world.run(**kw)
+            with _Watchdog():
+                world.run(**kw)
             ctx.outcome = {"r": "ok", "msg": "", "phase": "run"}
         except BaseException as e:  # noqa: BLE001
             ctx.outcome = dict(classify(e), phase="run")
@@ -483,6 +536,14 @@ def execute(scn: dict, behaviour, policy, run_kw=None, world_kw=None, connect_or
             pass
         asyncio.set_event_loop(None)
         CTX = None
+    if scn.get("debug") and world is not None and ctx.outcome.get("phase") == "run":
+        try:
+            eg = world.execution_graph
+            nodes = sorted([n[0], list(n[1].tiers)] for n in eg.nodes)
+            edges = sorted([a[0], list(a[1].tiers), b[0], list(b[1].tiers)] for a, b in eg.edges)
+            ctx.record({"k": "EG", "r": ctx.outcome["r"], "nodes": nodes, "edges": edges})
+        except Exception as e:  # noqa: BLE001  the graph is an optional observation
+            ctx.eg_error = repr(e)
     pend = getattr(loop, "pending_at_close", None)
     ev = {"k": "END", "r": ctx.outcome["r"], "cat": categorize(ctx.outcome), "names": named_sims(scn, ctx.outcome["msg"]),
           "closed": bool(ctx.loop_closed), "pend": len(pend or []) if ctx.loop_closed else getattr(ctx, "pending_tasks", 0),
